@@ -1,9 +1,19 @@
 import KyupyVerif.Proofs.WaveExact
+import KyupyVerif.Proofs.WaveMemCirc
+import KyupyVerif.Proofs.WaveMemDemo
 /-! # C13 — capture results and switching-activity counts faithfully summarise waveforms
 
 Models (M): `Wave.captureWv` = `wave_capture_cpu` / `wave_capture_gpu` with `sd = 0`; `Wave.waveCounts` = the
 `(nrise, nfall)` pair `_wave_eval` returns; `Wave.accumulate` = the `abuf[a_loc, sim] += nrise*a_wr + nfall*a_wf`
-updates of `level_eval_cpu` / `wave_eval_gpu`. Tied to the code by correspondence (harness/c13.py). -/
+updates of `level_eval_cpu` / `wave_eval_gpu`. Tied to the code by correspondence (harness/c13.py).
+
+**Memory level** (last section; memory model in the header of Props/C03.lean): `wave_capture` scans the region
+`c[c_loc : c_loc + c_len]` of an output slot up to the first cell `≥ TMAX` — that is `captureWv (rdWave c_loc c_len m)`.
+`capture_faithful_mem`: after ANY propagation on the real layout (accepted map certificate) the record captured at output
+slot `j` is the faithful summary of the SIGNAL-LEVEL waveform of the captured signal; `clear_means_exact_mem`: if its overflow
+indicator is clear, the stored waveform is the one a simulation with any larger (unlimited) capacities computes;
+`counts_faithful_mem`: the counts an evaluator call returns are the transitions of the waveform it left in the output region;
+`capture_all_circuits`: for the tables of the `SimOps` model of every circuit. -/
 namespace KV.C13
 open KV KV.Sig KV.Wave
 
@@ -46,5 +56,115 @@ example : captureWv ⟨[T.tmin, T.fin 4, T.fin 9], T.tmax⟩ (T.fin 6) =
     { init := true, eat := T.fin 4, lst := T.fin 9, final := true, val := false, ovl := false } := by decide +kernel
 example : countTrans false [T.tmin, T.fin 4, T.fin 9] = (1, 1) := by decide +kernel
 example : accumulate (fun _ => 0) [⟨some 1, 3⟩, ⟨none, 5⟩, ⟨some 1, -2⟩, ⟨some 0, 7⟩] 1 = 1 := by decide +kernel
+
+/-! ## memory level -/
+open KV.MapSound
+
+/-- **capture on memory is faithful to the signal level**: accepted map; after ANY propagation the record `wave_capture`
+    computes from the region of output slot `j` (initial value, earliest arrival, latest stabilisation, final value, value at
+    the capture time, overflow indicator) is exactly the summary of the waveform `simWave` computes for the captured signal —
+    for every capture time -/
+theorem capture_faithful_mem (p : MapIn) (hc : p.check = none) (delay : Nat → Bool → Bool → Int) (m0 m' : Int → T)
+    (env0 : Nat → Wv) (hst : Stimulus p m0 env0) (hpr : Propagated p delay m0 m') (j s : Nat) (hjs : (j, s) ∈ p.ppoSrcs)
+    (time : T) :
+    let w := simWave (wcfg p delay) (waveProg p) env0 s
+    captureWv (rdWave (p.loc j) (p.cap j) m') time =
+      { init := w.init, eat := specEat w, lst := specLst w, final := w.final, val := valueAt w time,
+        ovl := w.term == T.tovl } := by
+  intro w
+  rw [propagated_eq_sim p hc delay m0 m' env0 hst hpr j s hjs]
+  exact capture_spec w time
+
+/-- **clear means exact, on memory**: if the overflow indicator captured at output slot `j` is clear, the waveform stored in
+    its region is identical to the one a simulation with ANY larger capacities `cfg'` (same delays; in particular unlimited
+    capacity) computes for the captured signal -/
+theorem clear_means_exact_mem (p : MapIn) (hc : p.check = none) (h4 : 4 ≤ p.capsMin) (delay : Nat → Bool → Bool → Int)
+    (hd : ∀ l a b, 0 ≤ delay l a b) (m0 m' : Int → T) (env0 : Nat → Wv) (henv : ∀ l, (env0 l).ok)
+    (hst : Stimulus p m0 env0) (hpr : Propagated p delay m0 m') (j s : Nat) (hjs : (j, s) ∈ p.ppoSrcs) (time : T)
+    (cfg' : WCfg) (hdel : cfg'.delay = delay) (hcap : ∀ i, p.cap i ≤ cfg'.cap i)
+    (hclear : (captureWv (rdWave (p.loc j) (p.cap j) m') time).ovl = false) :
+    rdWave (p.loc j) (p.cap j) m' = simWave cfg' (waveProg p) env0 s := by
+  have hsim := propagated_eq_sim p hc delay m0 m' env0 hst hpr j s hjs
+  rw [hsim] at hclear ⊢
+  have hne : (simWave (wcfg p delay) (waveProg p) env0 s).term ≠ T.tovl := by
+    intro e
+    simp [captureWv, e] at hclear
+  exact (clear_means_exact (wcfg p delay) cfg' hdel hcap (waveProg p) (wcfg_good p hc h4 delay hd) env0 henv s hne).symm
+
+/-- **counts on memory**: for one evaluator call honouring `WaveStep` (delays ≥ 0, output capacity ≥ 4, well-formed
+    operand waveforms in memory) the `(nrise, nfall)` it returns for the operands it read are the numbers of rising and
+    falling transitions of the waveform it left in the region of its output -/
+theorem counts_faithful_mem (p : MapIn) (cfg : WCfg) (o : OpRow) (m m' : Int → T) (hd : ∀ l a b, 0 ≤ cfg.delay l a b)
+    (hcap : 4 ≤ cfg.cap o.out) (hstep : WaveStep p cfg o m m')
+    (hargs : ∀ i ∈ o.ins, (rdWave (p.loc i) (p.cap i) m).ok) :
+    waveCounts cfg (wvOp p o) (o.ins.map fun i => rdWave (p.loc i) (p.cap i) m) =
+      countTrans false (rdWave (p.loc o.out) (p.cap o.out) m').ents := by
+  rw [hstep.2]
+  apply counts_faithful cfg (wvOp p o) _ hd hcap
+  intro x hx
+  obtain ⟨i, hi, rfl⟩ := List.mem_map.1 hx
+  exact hargs i hi
+
+/-- **all circuits**: for the map record of the `SimOps` model of ANY well-formed netlist, topological order, `strip_forks` /
+    `c_reuse` setting, capacity vector and `c_caps_min ≥ 4`: what `c_to_s` captures at the output slot of interface node `n`
+    (position `i`, data pin on line `l`) after any propagation is the faithful summary of the signal-level waveform of the
+    captured signal `src l`, and a clear overflow indicator means that waveform is exact -/
+theorem capture_all_circuits (tbl : List PrefixRow) (net : Net) (order : List Nat) (strip : Bool)
+    (capsIn : Nat → Nat) (capsMin : Nat) (reuse : Bool) (p : MapIn)
+    (hp : p = simopsMap tbl net order strip capsIn capsMin reuse)
+    (hwf : net.wfB = true) (ho : orderOKB net order = true) (hf : strip = true → forksOKB net order = true)
+    (hr : readsDrivenB tbl net order = true) (h4 : 4 ≤ capsMin)
+    (delay : Nat → Bool → Bool → Int) (hd : ∀ l a b, 0 ≤ delay l a b) (m0 m' : Int → T) (env0 : Nat → Wv)
+    (henv : ∀ l, (env0 l).ok) (hst : Stimulus p m0 env0) (hpr : Propagated p delay m0 m')
+    (n i l : Nat) (hn : (n, i) ∈ net.sNodes.zipIdx) (hl : (net.node n).inPin 0 = some l) (time : T) :
+    let w := simWave (wcfg p delay) (waveProg p) env0 (p.src l)
+    let r := rdWave (p.loc (net.idx.ppo + i)) (p.cap (net.idx.ppo + i)) m'
+    captureWv r time = { init := w.init, eat := specEat w, lst := specLst w, final := w.final, val := valueAt w time,
+                         ovl := w.term == T.tovl } ∧
+    ((captureWv r time).ovl = false → ∀ cfg' : WCfg, cfg'.delay = delay → (∀ x, p.cap x ≤ cfg'.cap x) →
+      r = simWave cfg' (waveProg p) env0 (p.src l)) := by
+  intro w r
+  have hc : p.check = none := by
+    rw [hp]; exact simopsMap_accepted tbl net order strip capsIn capsMin reuse hwf ho hf hr (by omega)
+  have hnet : p.net = net := by rw [hp]; rfl
+  have hjs : (net.idx.ppo + i, p.src l) ∈ p.ppoSrcs := by
+    have := mem_ppoSrcs p (n := n) (i := i) (l := l) (by rw [hnet]; exact hn) (by rw [hnet]; exact hl)
+    have hix : p.ix = net.idx := by show p.net.idx = _; rw [hnet]
+    rw [hix] at this; exact this
+  refine ⟨capture_faithful_mem p hc delay m0 m' env0 hst hpr _ _ hjs time, ?_⟩
+  intro hclear cfg' hdel hcap
+  exact clear_means_exact_mem p hc (by rw [hp]; exact h4) delay hd m0 m' env0 henv hst hpr _ _ hjs time cfg' hdel hcap hclear
+
+/-- non-vacuity on `Wave.memDemo` (strip + reuse; `a` rises at 5, `b` constant 1): what is captured from cells 20…23 of the
+    real layout after the propagation, at capture time 6 -/
+example (junk : Int → Nat → Wv → (Int → T) → Int → T) :
+    captureWv (rdWave 20 4 (memRun memDemo (waveRW junk) (waveRow (wcfg memDemo memDemoDelay) memDemo)
+      (schedOps memDemo [1, 0, 2, 3]) memDemoM0)) (T.fin 6) =
+    { init := true, eat := T.fin 8, lst := T.fin 8, final := false, val := true, ovl := false } := by
+  have key := capture_faithful_mem memDemo memDemo_check memDemoDelay memDemoM0 _ (inputEnv memDemo memDemoM0)
+    (stimulus_inputEnv _ _) (memDemo_propagated junk) 14 5 (by decide +kernel) (T.fin 6)
+  have hloc : memDemo.loc 14 = 20 ∧ memDemo.cap 14 = 4 := by decide +kernel
+  rw [hloc.1, hloc.2] at key
+  rw [key, memDemo_sim]
+  decide +kernel
+
+/-- non-vacuity of `counts_faithful_mem`: the first evaluator call of that propagation (row `line 1 := BUF1(input slot 10)`,
+    operands well formed in the initial memory) -/
+example (junk : Int → Nat → Wv → (Int → T) → Int → T) : ∃ m1,
+    waveCounts (wcfg memDemo memDemoDelay) (wvOp memDemo ⟨43690, 1, 10, 6, 6, 6⟩)
+        ((OpRow.ins ⟨43690, 1, 10, 6, 6, 6⟩).map fun i => rdWave (memDemo.loc i) (memDemo.cap i) memDemoM0) =
+      countTrans false (rdWave (memDemo.loc 1) (memDemo.cap 1) m1).ents := by
+  have hrun := memDemo_run junk
+  have hso : schedOps memDemo [1, 0, 2, 3] =
+      ⟨43690, 1, 10, 6, 6, 6⟩ :: [⟨43690, 0, 9, 6, 6, 6⟩, ⟨34952, 4, 2, 3, 6, 6⟩, ⟨21845, 5, 4, 6, 6, 6⟩] := by decide +kernel
+  rw [hso] at hrun
+  obtain ⟨m1, hstep, _⟩ := waveRun_head hrun
+  refine ⟨m1, counts_faithful_mem memDemo _ _ memDemoM0 m1 memDemoDelay_nonneg (by decide +kernel) hstep ?_⟩
+  intro i hi
+  simp only [OpRow.ins, List.mem_cons, List.not_mem_nil, or_false] at hi
+  have h10 : (10 : Nat) ∈ memDemo.ppiSlots := by rw [memDemo_tables.2.2.1]; decide
+  rcases hi with rfl | rfl | rfl | rfl
+  · exact memDemo_inputs 10 (Or.inl h10)
+  all_goals exact memDemo_inputs 6 (Or.inr rfl)
 
 end KV.C13
